@@ -53,6 +53,10 @@ func runRace(e *ev.Env) {
 				if r.Intn(5) == 0 && !rq.Cancel {
 					rq.TimeoutMs = 0
 				}
+				if rq.TimeoutMs > 0 && r.Intn(6) == 0 {
+					// a transport that fails around the deadline instead of answering
+					rq.FailMs = d + 1
+				}
 				plans[w] = append(plans[w], rq)
 			}
 		}
